@@ -1,4 +1,5 @@
 import AL.Model.Lint
+import AL.Model.Projects
 import Driver.Util
 namespace Driver.LintD
 open AL.Lint Driver
@@ -34,6 +35,28 @@ def handleRel : List String → String
       let res := pathFromProjectRoot cw ro disp
       s!"{hexStr disp.toString} {hexStr res.toString} {if knows ro (absOf cw pa) then 1 else 0}"
     | _, _, _ => "bad-op"
+  | _ => "bad-op"
+
+/-- `projectat <roots> <paths>`: roots and paths are lists of component lists (hex); prints for every path, looked up in
+sequence through one cache, the root found (components joined by `/`) or `-` -/
+def handleProjectAt : List String → String
+  | [rs, ps] =>
+    let compsOf : SExp → Option (List String) := fun e => match e with
+      | .atom "E" => some []
+      | .list l => l.mapM SExp.str?
+      | _ => none
+    let listOf : SExp → Option (List (List String)) := fun e => match e with
+      | .atom "E" => some []
+      | .list l => l.mapM compsOf
+      | _ => none
+    match readSExp rs >>= listOf, readSExp ps >>= listOf with
+    | some roots, some paths =>
+      let isRoot : List String → Bool := fun d => roots.contains d
+      let res := (AL.Projects.atAll isRoot [] paths).1
+      ";".intercalate (res.map fun r => match r with
+        | none => "-"
+        | some cs => "/" ++ "/".intercalate cs)
+    | _, _ => "bad-op"
   | _ => "bad-op"
 
 end Driver.LintD
